@@ -71,6 +71,9 @@ func (t *Transfer) In(q *Msg, a string) (env chan *Envelope, err error) {
 		}
 	}
 
+	// A transfer starts a chain of its own: nothing of an earlier transfer
+	// with this Transfer carries over into the request or its answer.
+	t.tsigRequestMAC, t.tsigTimersOnly = "", false
 	t.tsigKeyName, t.tsigAlgorithm = "", ""
 	if ts := q.IsTsig(); ts != nil {
 		t.tsigKeyName, t.tsigAlgorithm = ts.Hdr.Name, ts.Algorithm
